@@ -1084,13 +1084,37 @@ class Engine:
             v = self.binop(st.op, cur, self.eval(st.value, env), inplace=True)
             self.setattr(obj, t.attr, v)
         elif isinstance(t, ast.Subscript):
-            base = self.eval(t.value, env)
-            idx = self.eval_index(t.slice, env)
+            base, idx = self.subscript_store_target(t, env)
             cur = self.getitem(base, idx)
             v = self.binop(st.op, cur, self.eval(st.value, env), inplace=True)
             self.setitem(base, idx, v)
         else:
             raise EngineError('augmented assignment target')
+
+    def subscript_store_target(self, t, env):
+        """(base, index) of a subscript store.  `a [i][j] = v` on a small dense array: numpy's `a [i]` is a VIEW, so the store goes
+        into `a` itself -- modelled as the store `a [i, j] = v` (basic integer / slice indices only)."""
+        chain = []
+        node = t
+        while isinstance(node, ast.Subscript):
+            chain.append(node)
+            node = node.value
+        if len(chain) >= 2:
+            root = self.eval(node, env)
+            if isinstance(root, NDArr):
+                idxs = [self.eval_index(c.slice, env) for c in reversed(chain)]
+                flat_idx = []
+                ok = True
+                for ix in idxs:
+                    for part in (ix if isinstance(ix, tuple) else (ix,)):
+                        if isinstance(part, (int, slice)) or (isinstance(part, SV) and part.kind == 'int'):
+                            flat_idx.append(part)
+                        else:
+                            ok = False
+                # only chains of plain integer indices (each consumes one axis) are views we can fold into one index tuple
+                if ok and all(not isinstance(p_, slice) for p_ in flat_idx[:-1]):
+                    return root, tuple(flat_idx)
+        return self.eval(t.value, env), self.eval_index(t.slice, env)
 
     def assign(self, t, v, env):
         if isinstance(t, ast.Name):
@@ -1123,8 +1147,7 @@ class Engine:
             obj = self.eval(t.value, env)
             self.setattr(obj, t.attr, v)
         elif isinstance(t, ast.Subscript):
-            base = self.eval(t.value, env)
-            idx = self.eval_index(t.slice, env)
+            base, idx = self.subscript_store_target(t, env)
             self.setitem(base, idx, v)
         else:
             raise EngineError('assignment target %s' % t.__class__.__name__)
